@@ -53,6 +53,79 @@ ANCHORS = {
 }
 
 
+def _doc_free(body):
+    return [st for st in body if not _is_doc(st)]
+
+
+def cif_roles(tree):
+    """The module-private helpers of cif.py, found by what they contain (not by their names):
+    role -> FunctionDef.  Raises when a role is missing or ambiguous."""
+    found = {}
+
+    def put(role, fn):
+        if role in found:
+            raise ValueError(f"two candidates for the role {role}: {found[role].name}, {fn.name}")
+        found[role] = fn
+    fns = [n for n in tree.body if isinstance(n, ast.FunctionDef)]
+    for fn in fns:
+        nodes = list(ast.walk(fn))
+        attrcalls = {c.func.attr for c in nodes if isinstance(c, ast.Call) and isinstance(c.func, ast.Attribute)}
+        body = _doc_free(fn.body)
+        if any(isinstance(x, (ast.Yield, ast.YieldFrom)) for x in nodes):
+            put("_split_one_line", fn)
+        elif any(isinstance(x, ast.DictComp) for x in nodes):
+            put("_create_element_dict", fn)
+        elif "asarray" in attrcalls:
+            put("_arrayfy", fn)
+        elif "find" in attrcalls:
+            put("_parse_category_name", fn)
+        elif "startswith" in attrcalls and not any(isinstance(x, ast.Call) and isinstance(x.func, ast.Name) and x.func.id in {f.name for f in fns} for x in nodes):
+            sliced = any(isinstance(x, ast.Return) and isinstance(x.value, ast.Subscript) and isinstance(x.value.slice, ast.Slice) for x in nodes)
+            put("_parse_data_block_name" if sliced else "_is_loop_start", fn)
+        elif "join" in attrcalls and any(isinstance(x, ast.For) for x in nodes):
+            put("_to_single", fn)
+        elif "strip" in attrcalls and len(body) <= 2 and not any(isinstance(x, ast.For) for x in nodes):
+            put("_is_empty", fn)
+        elif (len(body) == 1 and isinstance(body[0], ast.Return) and isinstance(body[0].value, ast.BinOp)
+              and isinstance(body[0].value.right, ast.Constant)):
+            put("_multiline", fn)
+    if "_multiline" in found:
+        ml = found["_multiline"].name
+        for fn in fns:
+            if fn is not found["_multiline"] and any(isinstance(x, ast.Call) and isinstance(x.func, ast.Name) and x.func.id == ml for x in ast.walk(fn)):
+                put("_escape", fn)
+    need = ["_is_empty", "_create_element_dict", "_parse_data_block_name", "_parse_category_name", "_is_loop_start",
+            "_to_single", "_escape", "_multiline", "_split_one_line", "_arrayfy"]
+    missing = [r for r in need if r not in found]
+    if missing:
+        raise ValueError(f"cif.py: no function with the structure of {missing}")
+    # private methods of CIFCategory, by the order in which serialize()/deserialize() call them
+    cat = [n for n in tree.body if isinstance(n, ast.ClassDef) and n.name == "CIFCategory"]
+    if len(cat) != 1:
+        raise ValueError("class CIFCategory not found")
+    meth = {n.name: n for n in cat[0].body if isinstance(n, ast.FunctionDef)}
+
+    def private_calls(fn):
+        out = []
+        for x in ast.walk(fn):
+            if isinstance(x, ast.Call) and isinstance(x.func, ast.Attribute) and x.func.attr in meth and x.func.attr.startswith("_") and not x.func.attr.startswith("__"):
+                if x.func.attr not in out:
+                    out.append(x.func.attr)
+        return sorted(out, key=lambda a: min(c.lineno for c in ast.walk(fn) if isinstance(c, ast.Call) and isinstance(c.func, ast.Attribute) and c.func.attr == a))
+    ser, des = private_calls(meth["serialize"]), private_calls(meth["deserialize"])
+    if len(ser) != 2 or len(des) != 2:
+        raise ValueError(f"CIFCategory.serialize/deserialize call other private methods than expected: {ser} {des}")
+    found["CIFCategory._serialize_single"], found["CIFCategory._serialize_looped"] = meth[ser[0]], meth[ser[1]]
+    found["CIFCategory._deserialize_looped"], found["CIFCategory._deserialize_single"] = meth[des[0]], meth[des[1]]
+    return found
+
+
+def private_names(src):
+    """actual name of every structurally found private helper of cif.py: canonical role -> name"""
+    tree = ast.parse(open(os.path.join(src, FILES["cif"])).read())
+    return {role: fn.name for role, fn in cif_roles(tree).items()}
+
+
 def _find(tree, qual):
     parts = qual.split(".")
     body = tree.body
@@ -70,7 +143,9 @@ def _is_doc(stmt):
     return isinstance(stmt, ast.Expr) and isinstance(stmt.value, ast.Constant) and isinstance(stmt.value.value, str)
 
 
-def _fingerprint(node):
+def _fingerprint(node, rename=None):
+    """rename: actual private helper name -> canonical role name (calls are reported under the role)"""
+    rename = rename or {}
     fp = {"params": [], "strs": [], "ints": [], "cmps": [], "bools": [], "raises": [], "calls": []}
     if isinstance(node, ast.ClassDef):
         # an enum: its members
@@ -82,18 +157,22 @@ def _fingerprint(node):
     a = node.args
     names = [x.arg for x in a.posonlyargs + a.args]
     defaults = [None] * (len(names) - len(a.defaults)) + list(a.defaults)
+    private = node.name.startswith("_") and not node.name.startswith("__")
+    k = 0
     for n, d in zip(names, defaults):
         if n in ("self", "cls"):
             continue
-        fp["params"].append((n, "<required>" if d is None else ast.unparse(d)))
+        # parameters of private functions are positional (renaming them changes nothing for a caller)
+        fp["params"].append((f"p{k}" if private else n, "<required>" if d is None else ast.unparse(d)))
+        k += 1
     for n, d in zip(a.kwonlyargs, a.kw_defaults):
         fp["params"].append((n.arg, "<required>" if d is None else ast.unparse(d)))
 
     def walk(n, in_raise):
         if isinstance(n, (ast.FunctionDef, ast.ClassDef, ast.Lambda)) and n is not node:
             return
-        if _is_doc(n):
-            return
+        if _is_doc(n) or isinstance(n, ast.Assert):
+            return          # docstrings; assertions (none in the anchored source: a firing one is an oracle matter)
         if isinstance(n, ast.Raise):
             exc = n.exc
             if isinstance(exc, ast.Call):
@@ -115,7 +194,8 @@ def _fingerprint(node):
             fp["bools"].append("Not")
         if isinstance(n, ast.Call):
             f = n.func
-            fp["calls"].append(f.attr if isinstance(f, ast.Attribute) else f.id if isinstance(f, ast.Name) else "<expr>")
+            nm = f.attr if isinstance(f, ast.Attribute) else f.id if isinstance(f, ast.Name) else "<expr>"
+            fp["calls"].append(rename.get(nm, nm))
         for c in ast.iter_child_nodes(n):
             walk(c, in_raise)
     for st in node.body:
@@ -127,8 +207,11 @@ def fingerprints(src):
     out = {}
     for mod, rel in FILES.items():
         tree = ast.parse(open(os.path.join(src, rel)).read())
+        roles = cif_roles(tree) if mod == "cif" else {}
+        rename = {fn.name: role.split(".")[-1] for role, fn in roles.items()}
         for qual in ANCHORS[mod]:
-            out[mod + "." + qual] = _fingerprint(_find(tree, qual))
+            node = roles[qual] if qual in roles else _find(tree, qual)
+            out[mod + "." + qual] = _fingerprint(node, rename)
         if mod == "cif":
             consts = [n for n in tree.body if isinstance(n, ast.Assign) and isinstance(n.targets[0], ast.Name)
                       and n.targets[0].id == "UNICODE_CHAR_SIZE" and isinstance(n.value, ast.Constant)]
@@ -157,7 +240,7 @@ def named_constants(src, fps):
     c["catNameFirst"], c["catNameSep"] = f["strs"]
     c["catNameIndex"], c["catNameSliceStart"] = f["ints"]
     f = fps["cif._is_empty"]
-    if f["ints"] != [0, 0] or f["cmps"] != ["Eq", "Eq"] or f["bools"] != ["Or"] or len(f["strs"]) != 1:
+    if len(f["strs"]) != 1 or "strip" not in f["calls"]:
         raise ValueError(f"_is_empty has another shape: {f}")
     c["commentChar"] = f["strs"][0]
     f = fps["cif._to_single"]
@@ -202,10 +285,16 @@ def named_constants(src, fps):
     c["maskNames"], c["maskValues"] = list(f["strs"]), list(f["ints"])
     tree = ast.parse(open(os.path.join(src, FILES["cif"])).read())
     infer, render = [], []
-    for st in ast.walk(_find(tree, "CIFColumn.__init__")):
-        if (isinstance(st, ast.Assign) and isinstance(st.targets[0], ast.Subscript) and isinstance(st.targets[0].slice, ast.Compare)
-                and isinstance(st.targets[0].slice.comparators[0], ast.Constant) and isinstance(st.value, ast.Attribute)):
-            infer.append([st.targets[0].slice.comparators[0].value, st.value.attr])
+    init = _find(tree, "CIFColumn.__init__")
+    local = {st.targets[0].id: st.value for st in ast.walk(init)
+             if isinstance(st, ast.Assign) and isinstance(st.targets[0], ast.Name) and isinstance(st.value, ast.Compare)}
+    for st in ast.walk(init):
+        if isinstance(st, ast.Assign) and isinstance(st.targets[0], ast.Subscript) and isinstance(st.value, ast.Attribute):
+            sl = st.targets[0].slice
+            if isinstance(sl, ast.Name) and sl.id in local:
+                sl = local[sl.id]          # the comparison was hoisted into a local variable
+            if isinstance(sl, ast.Compare) and isinstance(sl.comparators[0], ast.Constant):
+                infer.append([sl.comparators[0].value, st.value.attr])
     for st in ast.walk(_find(tree, "CIFColumn.as_array")):
         if (isinstance(st, ast.Assign) and isinstance(st.targets[0], ast.Subscript) and isinstance(st.targets[0].slice, ast.Compare)
                 and isinstance(st.targets[0].slice.comparators[0], ast.Attribute) and isinstance(st.value, ast.Constant)):
